@@ -461,3 +461,79 @@ Proof.
       * intros H. discriminate H.
 Qed.
 Print Assumptions iso_eq.
+
+(* ---------- part 7: corollaries ---------- *)
+(* S on the raw characters needs no final new-line once one is supplied *)
+Theorem F_scan_norm_eq t ls : plines_of_text t = Some ls -> F_scan (norm_nl t) = S_scan (cls_lines ls).
+Proof.
+  intros P. pose proof (plines_norm _ _ P) as P'.
+  destruct (F_scan_eq _ (ends_nl_norm t)) as (ls' & P'' & EF). rewrite P' in P''. injection P'' as <-. exact EF.
+Qed.
+
+Lemma iso_wf_no_splice t : iso_wf (iso_scan t) = true -> ends_bs_nl (norm_nl t) = false.
+Proof.
+  unfold iso_scan. destruct (phase3 iTop i_init (phase2 1 (norm_nl t))) as [a m]. cbn [iso_wf].
+  intros H. apply andb_true_iff in H. destruct H as [_ H]. apply negb_true_iff in H. exact H.
+Qed.
+
+(* which texts have no physical-line form: exactly those ending in a backslash that no new-line follows
+   (c_file_source raises "file seems to end in \ with no newline!") *)
+Definition ends_bare_bs (t : list ascii) : bool :=
+  match rev t with c :: _ => is_bs c | [] => false end.
+
+Lemma bare_cons c r : r <> [] -> ends_bare_bs (c :: r) = ends_bare_bs r.
+Proof.
+  intros Hne. unfold ends_bare_bs. cbn [rev]. destruct (rev r) as [|x y] eqn:E; [|reflexivity].
+  exfalso. apply Hne. rewrite <- (rev_involutive r), E. reflexivity.
+Qed.
+
+Lemma raw_bare t : forall cur, ends_nl t = false -> ends_bare_bs t = true ->
+  prep_lines (raw_lines_aux cur t) = None.
+Proof.
+  induction t as [|c r IH]; intros cur He Hb; [discriminate He|].
+  destruct r as [|d r'].
+  - assert (Hc : (zascii c =? 10)%Z = false) by (unfold ends_nl, is_nl in He; cbn in He; exact He).
+    unfold ends_bare_bs in Hb. cbn in Hb.
+    rewrite raw_cons, Hc. cbn [raw_lines_aux prep_lines]. unfold prep_line. rewrite rev_involutive.
+    rewrite Hb. reflexivity.
+  - rewrite ends_nl_cons in He by discriminate. rewrite bare_cons in Hb by discriminate.
+    rewrite raw_cons. destruct (zascii c =? 10)%Z.
+    + cbn [prep_lines]. rewrite (IH [] He Hb). destruct (prep_line (rev cur, true)); reflexivity.
+    + apply IH; assumption.
+Qed.
+
+Lemma raw_not_bare t : forall cur ls, ends_nl t = false -> ends_bare_bs t = false ->
+  prep_lines (raw_lines_aux cur (t ++ ["010"%char])) = Some ls ->
+  prep_lines (raw_lines_aux cur t) = None -> False.
+Proof.
+  induction t as [|c r IH]; intros cur ls He Hb P HN; [discriminate He|].
+  destruct r as [|d r'].
+  - assert (Hc : (zascii c =? 10)%Z = false) by (unfold ends_nl, is_nl in He; cbn in He; exact He).
+    unfold ends_bare_bs in Hb. cbn in Hb.
+    rewrite raw_cons, Hc in HN. cbn [raw_lines_aux prep_lines] in HN. unfold prep_line in HN.
+    rewrite rev_involutive, Hb in HN. discriminate HN.
+  - rewrite ends_nl_cons in He by discriminate. rewrite bare_cons in Hb by discriminate.
+    change ((c :: d :: r') ++ ["010"%char]) with (c :: (d :: r') ++ ["010"%char]) in P.
+    rewrite raw_cons in HN, P. destruct (zascii c =? 10)%Z.
+    + cbn [prep_lines] in HN, P. destruct (prep_line (rev cur, true)); [|discriminate P].
+      destruct (prep_lines (raw_lines_aux [] ((d :: r') ++ ["010"%char]))) as [ps|] eqn:Ep; [|discriminate P].
+      destruct (prep_lines (raw_lines_aux [] (d :: r'))) eqn:Eq; [discriminate HN|].
+      exact (IH [] ps He Hb Ep Eq).
+    + exact (IH (c :: cur) ls He Hb P HN).
+Qed.
+
+Theorem plines_none_iff t : plines_of_text t = None <-> ends_bare_bs t = true.
+Proof.
+  split.
+  - intros HN. destruct (ends_nl t) eqn:He.
+    + destruct (tokens_lines t He) as (ls & P & _). congruence.
+    + destruct (ends_bare_bs t) eqn:Hb; [reflexivity|]. exfalso.
+      assert (Hn : ends_nl (t ++ ["010"%char]) = true) by (rewrite ends_nl_snoc; reflexivity).
+      destruct (tokens_lines _ Hn) as (ls & P & _).
+      exact (raw_not_bare t [] ls He Hb P HN).
+  - intros Hb. destruct (ends_nl t) eqn:He.
+    + exfalso. unfold ends_nl, ends_bare_bs in *. destruct (rev t) as [|c r]; [discriminate Hb|].
+      rewrite (nl_not_bs _ He) in Hb. discriminate Hb.
+    + unfold plines_of_text, raw_lines. apply raw_bare; assumption.
+Qed.
+Print Assumptions plines_none_iff.
